@@ -329,6 +329,8 @@ class Models:
             if item is None:
                 raise Unsupported("list * symbolic int")
             return SSeq(r.t, lambda k: item, "list", "repeat")
+        if isinstance(l, SSet) and isinstance(r, SSet) and isinstance(op, ast.BitOr):
+            return SSet(lambda nm, a=l.member, b=r.member: z3.Or(a(nm), b(nm)), "union")
         if isinstance(l, str) and isinstance(r, str) and isinstance(op, ast.Add):
             return l + r
         if isinstance(l, (str, SStrOpaque)) and isinstance(r, (str, SStrOpaque)) and isinstance(op, ast.Add):
@@ -1066,7 +1068,7 @@ class Models:
         if items is not None:
             return PList(items)
         S = self.as_seq_iter(ip, a[0])
-        return SSeq(S.n, S.get, "list", S.elem_desc)
+        return SSeq(S.n, S.get, "list", S.elem_desc, tag=(S.tag if S.tag and S.tag[0] == "field" else None))
 
     def b_tuple(self, ip, a, kw, node):
         if not a:
